@@ -692,13 +692,13 @@ func makeD(id int, suite string, seed, c2s, s2c int) (string, string) {
 var modes = []string{"gm", "auto", "tls"}
 var ckinds = []string{"g", "t10", "t11", "t12"}
 var cSuites = []string{"n", "e013", "e053", "e053+e013", "e011+e051", "e011+e013", "002f", "c02f+009c", "c02b", "009c", "c013+002f"}
-var sSuites = []string{"n", "e013", "e013+e053", "002f+c02f", "009c", "e011"}
+var sSuites = []string{"n", "e013", "e013+e053", "002f+c02f", "009c", "e011", "009c+c02f"}
 var ccerts = []string{"n", "t", "u"}
 
 const nd = 12
 
 type cfgIdx [nd]int // mode, ckind, cs, ss, prefer, auth, ccert, callbacks, tickets, pool, conns-1, closer
-var dims = [nd]int{3, 4, 11, 6, 2, 5, 3, 2, 2, 2, 3, 3}
+var dims = [nd]int{3, 4, 11, 7, 2, 5, 3, 2, 2, 2, 3, 3}
 var closers = []string{"-", "c", "s"}
 
 func (c cfgIdx) line(id int, peer string, c2s, s2c, seed int) string {
@@ -849,6 +849,16 @@ func gen(seed uint64, tier string) (cases []string, pre map[int]string) {
 			peer string
 		}{c, "gg"})
 	}
+	// suite preference: lists in opposite orders, with and without PreferServerCipherSuites
+	for _, c := range []cfgIdx{
+		{0, 0, 3, 2, 0, 0, 0, 0, 0, 1, 0, 0}, {0, 0, 3, 2, 1, 0, 0, 0, 0, 1, 0, 0}, {1, 0, 3, 2, 1, 0, 0, 1, 1, 1, 0, 0},
+		{2, 3, 7, 6, 0, 0, 0, 0, 0, 1, 0, 0}, {2, 3, 7, 6, 1, 0, 0, 0, 0, 1, 0, 0}, {1, 3, 7, 6, 1, 0, 0, 1, 1, 1, 0, 0},
+		{2, 3, 0, 6, 1, 0, 0, 0, 0, 1, 0, 0}, {2, 3, 0, 0, 1, 0, 0, 0, 0, 1, 0, 0}, {0, 0, 0, 2, 0, 0, 0, 0, 0, 1, 0, 0}} {
+		fixed = append(fixed, struct {
+			c    cfgIdx
+			peer string
+		}{c, "gg"})
+	}
 	// the writer closes right after its last write, the reader drains with a small buffer
 	for i, c := range []cfgIdx{
 		{0, 0, 1, 0, 0, 0, 0, 0, 0, 1, 0, 2}, {0, 0, 2, 0, 0, 0, 0, 0, 1, 1, 0, 2}, {0, 0, 1, 0, 0, 0, 0, 0, 1, 1, 0, 1},
@@ -878,6 +888,18 @@ func gen(seed uint64, tier string) (cases []string, pre map[int]string) {
 	for i, fc := range fixed {
 		id++
 		a, b := 200*1024, 150*1024+r.Intn(50*1024)
+		if !thorough && fc.c[1] == 0 && i < 11 {
+			// GMSSL payloads are decoded by the extracted Coq specification (about 45 us per byte): in the quick
+			// tier one 200 KiB stream, the others up to 64 KiB
+			switch i {
+			case 0:
+				b = 3000
+			case 2:
+				a, b = 65536, 40000
+			default:
+				a, b = 32768, 20000
+			}
+		}
 		if i >= 11 {
 			a, b = []int{700, 3000, 9000, 1 + r.Intn(5000)}[r.Intn(4)], []int{700, 3000, 9000, 1 + r.Intn(5000)}[r.Intn(4)]
 		} else if i%2 == 1 {
